@@ -35,6 +35,9 @@ fn process_plane(input: &mut dyn Read, width: u32, height: u32, output: &mut [u8
 					replen = revcode;
 					collen = 0;
 				}
+				if indexw + collen as u32 + replen as u32 > width {
+					return Err(Error::RdpError(RdpError::new(RdpErrorKind::InvalidData, "RLE segment overruns the scan line")))
+				}
 				while collen > 0 {
 					color = input.read_u8()? as i8;
 					output[out as usize] = color as u8;
@@ -60,6 +63,9 @@ fn process_plane(input: &mut dyn Read, width: u32, height: u32, output: &mut [u8
 				if (revcode <= 47) && (revcode >= 16) {
 					replen = revcode;
 					collen = 0;
+				}
+				if indexw + collen as u32 + replen as u32 > width {
+					return Err(Error::RdpError(RdpError::new(RdpErrorKind::InvalidData, "RLE segment overruns the scan line")))
 				}
 				while collen > 0 {
 					x = input.read_u8()?;
@@ -100,6 +106,15 @@ pub fn rle_32_decompress(input: &[u8], width: u32, height: u32, output: &mut [u8
 
 	if input_cursor.read_u8()? != 0x10 {
 		return Err(Error::RdpError(RdpError::new(RdpErrorKind::UnexpectedType, "Bad header")))
+	}
+
+	if output.len() < (width as usize) * (height as usize) * 4 {
+		return Err(Error::RdpError(RdpError::new(RdpErrorKind::InvalidSize, "Output buffer too small")))
+	}
+
+	// nothing to decode for an empty image
+	if width == 0 || height == 0 {
+		return Ok(())
 	}
 
 	process_plane(&mut input_cursor, width, height, &mut output[3..])?;
